@@ -190,7 +190,7 @@ def gen_cli_case(rnd, i):
                 d[2] = rnd.choice(["ЖУК", "игра", "Тест 1", "Ёж", "Привет", "абвгдежз", "абвгдежзи"])     # 3..9 letters = 6..18 bytes in utf-8
     incdir = rnd.choice([None, None, None, "lib", "lib/deep"]) if directives and not any((d[1] or "").startswith("../") or "/../" in (d[1] or "") for d in directives) else None
     return {"charset": charset, "incdir": incdir, "stale": rnd.random() < 0.3, "dcase": rnd.choice([0, 0, 0xFFFF, rnd.randrange(1 << 16)]), "kind": "cli", "base": base, "image": img.hex(), "src": stem + suffix, "srcdir": srcdir, "directives": directives,
-            "opts": opts, "where": rnd.choice(["top", "bottom", "middle"]), "quote": rnd.choice("\"'/"), "second": second, "mirror": rnd.random() < 0.7}
+            "opts": opts, "where": rnd.choice(["top", "bottom", "middle"]), "quote": rnd.choice("\"'/"), "second": second, "mirror": rnd.random() < 0.7, "rerun": rnd.random() < 0.3}
 
 
 def case_signature(case):
@@ -415,6 +415,30 @@ def run_case(case, cnt=None):
         cnt["cli_runs"] += 1
         if r["stall"]:
             return out
+        if case.get("rerun") and r["exit"] == 0:
+            # the outputs of an earlier build are in place, same names, same sizes, same beginnings, something else further on (an older
+            # version of the program): the new build replaces every one of them with exactly what it would write into an empty directory
+            damaged = 0
+            for t in targets:
+                if os.path.isfile(t) and os.path.getsize(t) > 16:
+                    with open(t, "r+b") as fh:
+                        size = os.path.getsize(t)
+                        for posn in {size - 1, size - 7, size // 2, min(size - 1, 5000), min(size - 1, 70000)}:
+                            fh.seek(posn)
+                            b = fh.read(1)
+                            fh.seek(posn)
+                            fh.write(bytes([b[0] ^ 0x55]))
+                        if size > 6000:
+                            # (a stretch of flat samples in the middle of a tape image: some bits are simply not there)
+                            fh.seek(max(4200, size // 4))
+                            fh.write(b"\x80" * (size // 2))
+                    damaged += 1
+            if damaged:
+                r = cli.run_cli(argv, cwd, scratch, timeout=120)
+                cnt["rebuilds_over_older_outputs"] = cnt.get("rebuilds_over_older_outputs", 0) + 1
+                if r["stall"]:
+                    return out
+                r["diff"]["modified"] = list(r["diff"].get("modified", [])) + [os.path.relpath(t, cwd) for t in targets if t.startswith(cwd)]
         created = set()
         for rel in r["diff"]["created"] + r["diff"]["modified"]:
             if not rel.endswith("/"):
